@@ -37,7 +37,7 @@ for sd in sorted(glob.glob(os.path.join(wt, "ref[0-9]"))):
         subprocess.run(["rsync", "-a", "--exclude", "target", "--exclude", ".git", "/repo/", t + "/"], check=True)
         r = subprocess.run(["patch", "-s", "-p1", "-d", t, "-i", os.path.join(out, "patch.diff")], capture_output=True, text=True)
         if r.returncode == 0:
-            r = subprocess.run(["/verif/check", "all"], env=dict(os.environ, VERIF_REPO=t, VERIF_EVIDENCE=t + "/.verif-evidence"), capture_output=True, text=True)
+            r = subprocess.run(["/verif/check", "all"], env=dict(os.environ, VERIF_REPO=t, VERIF_EVIDENCE=t + "/.verif-evidence", VERIF_BUILD_SLOTS=os.environ.get("VERIF_BUILD_SLOTS", "8"), VERIF_CACHE_KEEP=os.environ.get("VERIF_CACHE_KEEP", "600")), capture_output=True, text=True)
             last = []
             for line in r.stdout.splitlines():
                 if line.strip().startswith("violated:"):
